@@ -14,6 +14,17 @@ CLAIMED = {
         note=TB + "; sorted() on 4 values = compare-exchange network; numba compiles the python semantics"),
 }
 
+CLAIMED["C15"] = dict(
+    text="get_borders (plain and Kramers) and find_degen: unbounded proof, for any number of bands, that the returned blocks are "
+         "non-empty, contiguous, cover [0,n), that a position is a block boundary iff the gap below it exceeds the threshold (and is "
+         "even with Kramers), hence internal gaps <= threshold -- np.where/zip(b,b[1:]) are modelled as a sorted index set with an "
+         "order-isomorphic enumeration. select_window_degen: proved for ALL real energies/thresholds/windows at each band count "
+         "NB=1..5 (quick) / 1..6 (thorough), both include_degen settings: no pair closer than the threshold is separated, plus "
+         "minimality/maximality of the selection (per-shape proof: loops fully unrolled, complete for that NB). Bounded stand-ins with "
+         "dyadic energies so that gaps equal to the threshold occur. Not covered: Tabulator.__call__ group averaging and the "
+         "wannierise window bookkeeping lines are not under contract.",
+    note=TB + "; Kramers precondition: even number of bands; np.where/zip external contracts")
+
 NOT_APPLICABLE = {
     "C20": "real-space symmetrisation is a data-dependent floating-point orbit search over irrep objects; its postcondition is only statable through an eigen-solver, no discrete/algebraic kernel is left once externals are abstracted (DESIGN section 7)",
     "C21": "rotation matrices are produced inside sympy (polynomial expansion + evalf); orthogonality/composition live in that CAS computation, outside any contract this engine can generate VCs for (DESIGN section 7)",
